@@ -9,3 +9,5 @@ func vtr(event string, id bin.Bin128, a, b int64) {}
 func vnew(ch *channel, id bin.Bin128) {}
 
 func vtrc(event string, ch *channel) {}
+
+func (c *client) vstate(event string) {}
